@@ -45,8 +45,17 @@ def gen_case(rng) -> dict:
         stop_before = 0
     elif r < 0.6:
         stop_before = rng.randint(1, 30)
-    return {"behs": behs, "maxf": rng.choice([None, None, 1, 2, 3]), "max_examples": rng.choice([1, 2, 5]),
+    case = {"behs": behs, "maxf": rng.choice([None, None, 1, 2, 3]), "max_examples": rng.choice([1, 2, 5]),
             "extra": rng.choice([0, 0, 1]), "stop_before": stop_before, "limit0": rng.random() < 0.05}
+    if rng.random() < 0.25:
+        # faults in ctx.maximize_metrics() during teardown (one entry per teardown); only in runs where no KeyboardInterrupt can be in
+        # flight during a teardown (the model ignores a fault then, the real exception would replace the interrupt)
+        case.update({"stop_before": None, "maxf": None, "limit0": False})
+        for b in case["behs"]:
+            b["scenarios"] = [[st for st in steps if st != "ki"] for steps in b["scenarios"]]
+        n_tear = sum(len(b["scenarios"]) for b in case["behs"])
+        case["faults"] = [rng.random() < 0.5 for _ in range(n_tear)]
+    return case
 
 
 class _Scripted(Exception):
@@ -189,6 +198,33 @@ def run_real(case: dict, via_consumer: bool = False) -> dict:
 
     err = None
     phase_status = None
+    from unittest import mock as _mock
+
+    from schemathesis.engine.phases.stateful.context import StatefulContext
+
+    faults = list(case.get("faults") or [])
+    real_maximize = StatefulContext.maximize_metrics
+
+    def maximize(self):
+        if faults and faults.pop(0):
+            raise _Scripted("maximize_metrics failed")
+        return real_maximize(self)
+
+    patcher = _mock.patch.object(StatefulContext, "maximize_metrics", maximize)
+    patcher.start()
+    try:
+        return _run_real_inner(case, via_consumer, locals())
+    finally:
+        patcher.stop()
+
+
+def _run_real_inner(case, via_consumer, env):
+    import threading
+
+    X, Base, engine, q, Q, action, schema, actions, bodies, stop_event, control, state = (
+        env[k] for k in ("X", "Base", "engine", "q", "Q", "action", "schema", "actions", "bodies", "stop_event", "control", "state"))
+    err = None
+    phase_status = None
     if via_consumer:
         from unittest import mock
 
@@ -295,7 +331,8 @@ def model_expr(case: dict, n_actions: int) -> str:
         labels.append("LP")
     ls = "[" + "; ".join(labels) + "]"
     lim0 = "true" if case.get("limit0") else "false"
-    return (f"(let s := prun_obs {{| p_maxf := {maxf}; p_maxex := {case['max_examples']} |}} {ls} (pinit false {lim0} 0 {behs}) in "
+    faults = "[" + "; ".join("true" if f else "false" for f in (case.get("faults") or [])) + "]"
+    return (f"(let s := prun_obs {{| p_maxf := {maxf}; p_maxex := {case['max_examples']} |}} {ls} (pinit_f {faults} false {lim0} 0 {behs}) in "
             f"(pscript s, rev (p_bodies s), pcode s, (p_stop s, p_limit s, p_counter s), "
             f"(nested (pscript s), all_closed_p (pscript s), phase_status (pscript s))))")
 
